@@ -7,15 +7,37 @@ import (
 	"bufio"
 	"encoding/hex"
 	"fmt"
+	smtp "github.com/emersion/go-smtp"
 	"os"
 	"runtime/debug"
 	"strconv"
 	"strings"
+	"sync/atomic"
 )
 
 type probe func(f []string) string
 
 var probes = map[string]probe{}
+
+// The hook variable of the library (build tag verif) is set once, before any goroutine exists; the probes exchange what it does
+// through an atomic pointer, so that a connection goroutine that is still winding down and the next probe do not race on it.
+var vpHandler atomic.Pointer[func(string)]
+
+func setVerifPoint(f func(string)) {
+	if f == nil {
+		vpHandler.Store(nil)
+		return
+	}
+	vpHandler.Store(&f)
+}
+
+func init() {
+	smtp.VerifPoint = func(name string) {
+		if h := vpHandler.Load(); h != nil {
+			(*h)(name)
+		}
+	}
+}
 
 func hx(b []byte) string {
 	if len(b) == 0 {
